@@ -95,6 +95,7 @@ func (r *rewriter) imports() {
 		"path/filepath": {"filepath", "simfp"},
 		"sync":          {"sync", "simsync"},
 		"sync/atomic":   {"atomic", "simatomic"},
+		"math/rand":     {"rand", "simrand"},
 	}
 	for _, imp := range r.file.Imports {
 		p, _ := strconv.Unquote(imp.Path.Value)
@@ -276,6 +277,7 @@ func (r *rewriter) goStmt(g *ast.GoStmt) {
 func (r *rewriter) walk() {
 	usesTime := false
 	sleepRewritten := false
+	fmtRewritten := false
 	for _, imp := range r.file.Imports {
 		if imp.Path.Value == `"time"` && imp.Name == nil {
 			usesTime = true
@@ -297,6 +299,13 @@ func (r *rewriter) walk() {
 		case *ast.LabeledStmt:
 			// covered through the statement list of the enclosing block
 		case *ast.SelectorExpr:
+			if id, ok := v.X.(*ast.Ident); ok && id.Name == "fmt" && id.Obj == nil && strings.HasPrefix(r.path, "pkg/replication/") && (v.Sel.Name == "Printf" || v.Sel.Name == "Println") {
+				// debugging output on every replicated entry: discarded (kept in the verbose trace)
+				r.add(r.off(v.Pos()), r.off(v.End()), "simrt."+v.Sel.Name)
+				r.used = true
+				fmtRewritten = true
+				r.stats["fmt."+v.Sel.Name]++
+			}
 			if id, ok := v.X.(*ast.Ident); ok && usesTime && id.Name == "time" && id.Obj == nil {
 				repl := map[string]string{"Sleep": "simrt.Sleep", "Now": "simrt.TimeNow", "Since": "simrt.TimeSince", "Until": "simrt.TimeUntil"}[v.Sel.Name]
 				if repl != "" {
@@ -311,6 +320,9 @@ func (r *rewriter) walk() {
 	})
 	if sleepRewritten {
 		r.insert(len(r.src), "\nvar _ = time.Second\n")
+	}
+	if fmtRewritten {
+		r.insert(len(r.src), "\nvar _ = fmt.Sprint\n")
 	}
 }
 
